@@ -46,6 +46,9 @@ type c14Wire struct {
 	trace   []byte // frame type sequence (D DATA, H HEADERS, P PRIORITY, R RST_STREAM, S SETTINGS, U PUSH_PROMISE, N PING, G GOAWAY, W WINDOW_UPDATE, C CONTINUATION; '+' = repeated)
 	lastT   byte
 	lastRun int
+	// payload bytes of the first header block (HEADERS + CONTINUATION*)
+	firstBlock int
+	blockState int // 0 before, 1 inside, 2 after the first header block
 }
 
 func (s *c14Wire) feed(p []byte) {
@@ -75,6 +78,14 @@ func (s *c14Wire) feed(p []byte) {
 			}
 			if FrameType(t) == FrameData && l > s.maxData {
 				s.maxData = l
+			}
+			switch {
+			case s.blockState == 0 && FrameType(t) == FrameHeaders:
+				s.blockState, s.firstBlock = 1, l
+			case s.blockState == 1 && FrameType(t) == FrameContinuation:
+				s.firstBlock += l
+			case s.blockState == 1:
+				s.blockState = 2
 			}
 			if t == s.lastT && len(s.trace) > 0 {
 				s.lastRun++
@@ -228,6 +239,13 @@ type c14Case struct {
 	ResFlush bool `json:"res_flush_each_write"`
 	ResTrl   int  `json:"res_trailers"` // 0 none, 1/20 declared fields, -1 one field via http.TrailerPrefix
 	Order    int  `json:"handler_order"` // 0 read request then respond, 1 flush response headers first
+	// Repeat > 1: the same exchange is repeated sequentially on the connection
+	// (header compression state, connection windows carry over)
+	Repeat int `json:"sequential_requests,omitempty"`
+	// ReqPad/ResPad > 0: an extra field X-Pad of that many 0xFE bytes (never
+	// Huffman-coded, so the header block grows by one byte per byte)
+	ReqPad int `json:"req_pad_field,omitempty"`
+	ResPad int `json:"res_pad_field,omitempty"`
 	// network deviations
 	Short []c14Short `json:"short_reads,omitempty"`
 }
@@ -363,7 +381,6 @@ func c14Invalid(x *c14Case) string {
 
 type c14Seen struct {
 	// handler side
-	calls      int
 	method     string
 	uri        string
 	host       string
@@ -375,7 +392,6 @@ type c14Seen struct {
 	trailer    http.Header
 	preTrailer []string // keys announced before the body was read
 	writeErr   error
-	flusher    bool
 }
 
 type c14Stats struct {
@@ -468,6 +484,25 @@ func (f c14Failer) Failf(sig, format string, a ...any) {
 	f.w.Failf(sig, format, a...)
 }
 
+type c14Info struct {
+	code int
+	h    textproto.MIMEHeader
+}
+
+// c14CliResult is what the client observed for one request.
+type c14CliResult struct {
+	started bool
+	res     *http.Response
+	err     error
+	body    []byte
+	bodyErr error
+	trailer http.Header
+	infos   []c14Info
+	stage   string
+}
+
+const c14Link = "</style.css>; rel=preload; as=style"
+
 func c14Exchange(vw *vx.W, x *c14Case) (st c14Stats, completed bool) {
 	w := c14Failer{vw, x}
 	c2s, s2c := c14NewHalf(true), c14NewHalf(false)
@@ -482,10 +517,10 @@ func c14Exchange(vw *vx.W, x *c14Case) (st c14Stats, completed bool) {
 		h.short[s.Index] = s.N
 	}
 	// Early: nothing the server sends reaches the client before the client has
-	// sent as much of its request as the protocol defaults allow (a client need
-	// not wait for the server's SETTINGS). Otherwise the request starts after
-	// both SETTINGS frames were exchanged and acknowledged. Both are
-	// deterministic extremes of the real race.
+	// sent as much of its (first) request as the protocol defaults allow (a
+	// client need not wait for the server's SETTINGS). Otherwise the request
+	// starts after both SETTINGS frames were exchanged and acknowledged. Both
+	// are deterministic extremes of the real race.
 	s2c.gated = x.Early
 	cliConn := &c14Conn{in: s2c, out: c2s, name: "client"}
 	srvConn := &c14Conn{in: c2s, out: s2c, name: "server"}
@@ -494,21 +529,28 @@ func c14Exchange(vw *vx.W, x *c14Case) (st c14Stats, completed bool) {
 	var logBuf bytes.Buffer
 	logw := c14LockedWriter{&logMu, &logBuf}
 
+	reps := max(1, x.Repeat)
 	reqHdr := c14HeaderSet(x.ReqHdr, "q")
 	reqTrl := c14Trailers(x.ReqTrl, "q")
 	reqBody := c14Body(x.ReqBody, 1)
 	resHdr := c14HeaderSet(x.ResHdr, "s")
 	resTrl := c14Trailers(x.ResTrl, "s")
 	resBody := c14Body(x.ResBody, 2)
-	const link = "</style.css>; rel=preload; as=style"
+	if x.ReqPad > 0 {
+		reqHdr["X-Pad"] = []string{strings.Repeat("\xfe", x.ReqPad)}
+	}
+	if x.ResPad > 0 {
+		resHdr["X-Pad"] = []string{strings.Repeat("\xfe", x.ResPad)}
+	}
 
 	// ---- server
-	var seen c14Seen
+	var seenMu sync.Mutex
+	var seenAll []*c14Seen
 	handler := http.HandlerFunc(func(rw http.ResponseWriter, r *http.Request) {
-		seen.calls++
-		if seen.calls > 1 {
-			return
-		}
+		seen := &c14Seen{}
+		seenMu.Lock()
+		seenAll = append(seenAll, seen)
+		seenMu.Unlock()
 		seen.method, seen.uri, seen.host, seen.proto = r.Method, r.RequestURI, r.Host, r.Proto
 		seen.header = r.Header.Clone()
 		seen.cl = r.ContentLength
@@ -537,7 +579,6 @@ func c14Exchange(vw *vx.W, x *c14Case) (st c14Stats, completed bool) {
 			}
 		}
 		fl, _ := rw.(http.Flusher)
-		seen.flusher = fl != nil
 		readReq := func() {
 			seen.body, seen.bodyErr = io.ReadAll(r.Body)
 			seen.trailer = r.Trailer.Clone()
@@ -546,7 +587,7 @@ func c14Exchange(vw *vx.W, x *c14Case) (st c14Stats, completed bool) {
 			readReq()
 		}
 		if x.Info {
-			h["Link"] = []string{link}
+			h["Link"] = []string{c14Link}
 			rw.WriteHeader(103)
 		}
 		rw.WriteHeader(x.Status)
@@ -629,61 +670,44 @@ func c14Exchange(vw *vx.W, x *c14Case) (st c14Stats, completed bool) {
 		synctest.Wait() // SETTINGS exchanged and acknowledged in both directions
 	}
 
-	type infoSeen struct {
-		code int
-		h    textproto.MIMEHeader
-	}
-	var infos []infoSeen
-	ctx := httptrace.WithClientTrace(context.Background(), &httptrace.ClientTrace{
-		Got1xxResponse: func(code int, h textproto.MIMEHeader) error {
-			infos = append(infos, infoSeen{code, h})
-			return nil
-		},
-	})
-	var body io.ReadCloser
-	var cr *c14ChunkReader
-	req, err := http.NewRequestWithContext(ctx, x.Method, "https://c14.example"+c14Paths[x.Path], nil)
-	if err != nil {
-		panic(err)
-	}
-	if x.ReqDecl && x.ReqBody == 0 {
-		body = http.NoBody
-	} else {
-		cr = &c14ChunkReader{data: reqBody, chunk: x.ReqChunk}
-		body = cr
-	}
-	req.Body = body
-	req.ContentLength = 0
-	if x.ReqDecl {
-		req.ContentLength = int64(x.ReqBody)
-	}
-	for k, vv := range reqHdr {
-		req.Header[k] = append([]string(nil), vv...)
-	}
-	if x.ReqTrl > 0 {
-		req.Trailer = http.Header{}
-		for k := range reqTrl {
-			req.Trailer[k] = nil
+	results := make([]c14CliResult, reps)
+	one := func(cr1 *c14CliResult) {
+		cr1.started = true
+		ctx := httptrace.WithClientTrace(context.Background(), &httptrace.ClientTrace{
+			Got1xxResponse: func(code int, h textproto.MIMEHeader) error {
+				cr1.infos = append(cr1.infos, c14Info{code, h})
+				return nil
+			},
+		})
+		req, err := http.NewRequestWithContext(ctx, x.Method, "https://c14.example"+c14Paths[x.Path], nil)
+		if err != nil {
+			panic(err)
 		}
-		cr.atEOF = func() {
-			for k, vv := range reqTrl {
-				req.Trailer[k] = append([]string(nil), vv...)
+		var cr *c14ChunkReader
+		if x.ReqDecl && x.ReqBody == 0 {
+			req.Body = http.NoBody
+		} else {
+			cr = &c14ChunkReader{data: reqBody, chunk: x.ReqChunk}
+			req.Body = cr
+		}
+		req.ContentLength = 0
+		if x.ReqDecl {
+			req.ContentLength = int64(x.ReqBody)
+		}
+		for k, vv := range reqHdr {
+			req.Header[k] = append([]string(nil), vv...)
+		}
+		if x.ReqTrl > 0 {
+			req.Trailer = http.Header{}
+			for k := range reqTrl {
+				req.Trailer[k] = nil
+			}
+			cr.atEOF = func() {
+				for k, vv := range reqTrl {
+					req.Trailer[k] = append([]string(nil), vv...)
+				}
 			}
 		}
-	}
-
-	type cliResult struct {
-		res     *http.Response
-		err     error
-		body    []byte
-		bodyErr error
-		trailer http.Header
-		stage   string
-	}
-	var cr1 cliResult
-	cliDone := make(chan struct{})
-	go func() {
-		defer close(cliDone)
 		cr1.stage = "roundtrip"
 		cr1.res, cr1.err = cc.RoundTrip(req)
 		if cr1.err != nil {
@@ -695,19 +719,30 @@ func c14Exchange(vw *vx.W, x *c14Case) (st c14Stats, completed bool) {
 		cr1.stage = "close-body"
 		cr1.res.Body.Close()
 		cr1.stage = "done"
-	}()
-
-	if x.Early {
-		synctest.Wait() // the client has sent all it can without hearing from the server
-		s2c.release()
 	}
+	// requests are sequential: the next one starts when the previous exchange
+	// is complete and both endpoints are quiescent
 	hung := false
-	select {
-	case <-cliDone:
-	case <-time.After(c14Hang):
-		hung = true
-	}
-	if !hung {
+	var cliDone chan struct{}
+	for i := range results {
+		done := make(chan struct{})
+		cliDone = done
+		go func() {
+			defer close(done)
+			one(&results[i])
+		}()
+		if x.Early && i == 0 {
+			synctest.Wait() // the client has sent all it can without hearing from the server
+			s2c.release()
+		}
+		select {
+		case <-cliDone:
+		case <-time.After(c14Hang):
+			hung = true
+		}
+		if hung || results[i].err != nil {
+			break
+		}
 		// let the handler return and the server finish its bookkeeping
 		synctest.Wait()
 	}
@@ -735,28 +770,55 @@ func c14Exchange(vw *vx.W, x *c14Case) (st c14Stats, completed bool) {
 		}
 		return s
 	}
-	if hung {
-		w.Failf("C14/liveness/exchange-hangs:"+cr1.stage, "client stuck in stage %q for %v of fake time; handler calls=%d, request bytes seen by handler=%d; %s", cr1.stage, c14Hang, seen.calls, len(seen.body), ctxt())
-		return
+	seenMu.Lock()
+	defer seenMu.Unlock()
+	for i := range results {
+		cr1 := &results[i]
+		if !cr1.started {
+			break
+		}
+		// which: first request of a connection, or a later one (abstract trigger)
+		which := ""
+		if i > 0 {
+			which = "/later-request-on-connection"
+		}
+		fail := func(sig, format string, a ...any) {
+			w.Failf(sig+which, fmt.Sprintf("request #%d: ", i+1)+format, a...)
+		}
+		if hung && cr1.stage != "done" {
+			nb := 0
+			if i < len(seenAll) {
+				nb = len(seenAll[i].body)
+			}
+			fail("C14/liveness/exchange-hangs:"+cr1.stage, "client stuck in stage %q for %v of fake time; handler calls=%d, request bytes seen by handler=%d; %s", cr1.stage, c14Hang, len(seenAll), nb, ctxt())
+			return
+		}
+		if cr1.err != nil {
+			fail("C14/client/roundtrip-error", "RoundTrip: %v; %s", cr1.err, ctxt())
+			return
+		}
+		if len(seenAll) != reps {
+			fail("C14/request/handler-calls", "handler ran %d times for %d requests; %s", len(seenAll), reps, ctxt())
+			return
+		}
+		c14Compare(fail, x, seenAll[i], cr1, reqHdr, reqTrl, reqBody, resHdr, resTrl, resBody, ctxt)
 	}
-	if cr1.err != nil {
-		w.Failf("C14/client/roundtrip-error", "RoundTrip: %v; %s", cr1.err, ctxt())
-		return
-	}
+	completed = !vw.Failed()
+	return
+}
 
-	// ---- oracle, request side
-	if seen.calls != 1 {
-		w.Failf("C14/request/handler-calls", "handler ran %d times for one request; %s", seen.calls, ctxt())
-		return
-	}
+// c14Compare is the oracle for one request/response pair.
+func c14Compare(fail func(sig, format string, a ...any), x *c14Case, seen *c14Seen, cr1 *c14CliResult,
+	reqHdr, reqTrl http.Header, reqBody []byte, resHdr, resTrl http.Header, resBody []byte, ctxt func() string) {
+	// ---- request side
 	if seen.method != x.Method {
-		w.Failf("C14/request/method", "handler saw method %q, sent %q", seen.method, x.Method)
+		fail("C14/request/method", "handler saw method %q, sent %q", seen.method, x.Method)
 	}
 	if seen.uri != c14Paths[x.Path] {
-		w.Failf("C14/request/path", "handler saw request URI %q, sent %q", seen.uri, c14Paths[x.Path])
+		fail("C14/request/path", "handler saw request URI %q, sent %q", seen.uri, c14Paths[x.Path])
 	}
 	if seen.host != "c14.example" {
-		w.Failf("C14/request/authority", "handler saw host %q, sent c14.example", seen.host)
+		fail("C14/request/authority", "handler saw host %q, sent c14.example", seen.host)
 	}
 	wantReq := c14Canon(reqHdr)
 	if _, ok := wantReq["User-Agent"]; !ok {
@@ -766,40 +828,40 @@ func c14Exchange(vw *vx.W, x *c14Case) (st c14Stats, completed bool) {
 	if cl, ok := gotReq["Content-Length"]; ok {
 		// allow-list: the Transport adds Content-Length when the length is known
 		if len(cl) != 1 || cl[0] != strconv.Itoa(x.ReqBody) || !x.ReqDecl {
-			w.Failf("C14/request/content-length-field", "handler saw Content-Length %q for a request body of %d bytes (declared=%v)", cl, x.ReqBody, x.ReqDecl)
+			fail("C14/request/content-length-field", "handler saw Content-Length %q for a request body of %d bytes (declared=%v)", cl, x.ReqBody, x.ReqDecl)
 		}
 		delete(gotReq, "Content-Length")
 	}
 	if d := c14DiffHeader(wantReq, gotReq); d != "" {
-		w.Failf("C14/request/header-fields", "request header fields differ (set %d): %s", x.ReqHdr, d)
+		fail("C14/request/header-fields", "request header fields differ (set %d): %s", x.ReqHdr, d)
 	}
 	switch {
 	case x.ReqDecl && x.ReqBody > 0 && seen.cl != int64(x.ReqBody):
-		w.Failf("C14/request/content-length", "Request.ContentLength = %d, declared %d", seen.cl, x.ReqBody)
+		fail("C14/request/content-length", "Request.ContentLength = %d, declared %d", seen.cl, x.ReqBody)
 	case (!x.ReqDecl || x.ReqBody == 0) && seen.cl != -1 && seen.cl != 0:
-		w.Failf("C14/request/content-length", "Request.ContentLength = %d for an undeclared/empty body", seen.cl)
+		fail("C14/request/content-length", "Request.ContentLength = %d for an undeclared/empty body", seen.cl)
 	}
 	if seen.bodyErr != nil {
-		w.Failf("C14/request/body-read-error", "handler's read of the request body failed after %d of %d bytes: %v; %s", len(seen.body), x.ReqBody, seen.bodyErr, ctxt())
+		fail("C14/request/body-read-error", "handler's read of the request body failed after %d of %d bytes: %v; %s", len(seen.body), x.ReqBody, seen.bodyErr, ctxt())
 	} else if !bytes.Equal(seen.body, reqBody) {
-		w.Failf("C14/request/body-bytes", "handler read %d body bytes, sent %d; first difference at %d; %s", len(seen.body), len(reqBody), c14FirstDiff(seen.body, reqBody), ctxt())
+		fail("C14/request/body-bytes", "handler read %d body bytes, sent %d; first difference at %d; %s", len(seen.body), len(reqBody), c14FirstDiff(seen.body, reqBody), ctxt())
 	}
 	if d := c14DiffHeader(c14Canon(reqTrl), c14DropNil(seen.trailer)); d != "" {
-		w.Failf("C14/request/trailers", "request trailers differ (%d sent): %s", x.ReqTrl, d)
+		fail("C14/request/trailers", "request trailers differ (%d sent): %s", x.ReqTrl, d)
 	}
 	if x.ReqTrl > 0 && len(seen.preTrailer) != len(reqTrl) {
-		w.Failf("C14/request/trailer-announcement", "handler saw %d announced trailer keys before reading the body, client declared %d", len(seen.preTrailer), len(reqTrl))
+		fail("C14/request/trailer-announcement", "handler saw %d announced trailer keys before reading the body, client declared %d", len(seen.preTrailer), len(reqTrl))
 	}
 
-	// ---- oracle, response side
+	// ---- response side
 	res := cr1.res
 	if res.StatusCode != x.Status {
-		w.Failf("C14/response/status", "client saw status %d, handler wrote %d", res.StatusCode, x.Status)
+		fail("C14/response/status", "client saw status %d, handler wrote %d", res.StatusCode, x.Status)
 	}
 	wantRes := c14Canon(resHdr)
 	wantRes["Content-Type"] = []string{"application/x-c14"}
 	if x.Info {
-		wantRes["Link"] = []string{link}
+		wantRes["Link"] = []string{c14Link}
 	}
 	wantBody := resBody
 	if x.Method == "HEAD" {
@@ -810,39 +872,37 @@ func c14Exchange(vw *vx.W, x *c14Case) (st c14Stats, completed bool) {
 	if x.ResDecl {
 		wantRes["Content-Length"] = []string{strconv.Itoa(len(resBody))}
 		if res.ContentLength != int64(len(resBody)) {
-			w.Failf("C14/response/content-length", "Response.ContentLength = %d, handler declared %d", res.ContentLength, len(resBody))
+			fail("C14/response/content-length", "Response.ContentLength = %d, handler declared %d", res.ContentLength, len(resBody))
 		}
 	} else if cl, ok := gotRes["Content-Length"]; ok {
 		// allow-list: the server adds Content-Length when the handler finished before the headers went out
 		if len(cl) != 1 || cl[0] != strconv.Itoa(len(resBody)) {
-			w.Failf("C14/response/added-content-length", "server added Content-Length %q to a response whose handler wrote %d bytes", cl, len(resBody))
+			fail("C14/response/added-content-length", "server added Content-Length %q to a response whose handler wrote %d bytes", cl, len(resBody))
 		}
 		delete(gotRes, "Content-Length")
 	}
 	if d := c14DiffHeader(wantRes, gotRes); d != "" {
-		w.Failf("C14/response/header-fields", "response header fields differ (set %d): %s", x.ResHdr, d)
+		fail("C14/response/header-fields", "response header fields differ (set %d): %s", x.ResHdr, d)
 	}
 	if cr1.bodyErr != nil {
-		w.Failf("C14/response/body-read-error", "client's read of the response body failed after %d of %d bytes: %v; %s", len(cr1.body), len(wantBody), cr1.bodyErr, ctxt())
+		fail("C14/response/body-read-error", "client's read of the response body failed after %d of %d bytes: %v; %s", len(cr1.body), len(wantBody), cr1.bodyErr, ctxt())
 	} else if !bytes.Equal(cr1.body, wantBody) {
-		w.Failf("C14/response/body-bytes", "client read %d body bytes, handler wrote %d; first difference at %d; %s", len(cr1.body), len(wantBody), c14FirstDiff(cr1.body, wantBody), ctxt())
+		fail("C14/response/body-bytes", "client read %d body bytes, handler wrote %d; first difference at %d; %s", len(cr1.body), len(wantBody), c14FirstDiff(cr1.body, wantBody), ctxt())
 	}
 	wantTrl := c14Canon(resTrl)
 	if x.Method == "HEAD" {
 		wantTrl = http.Header{}
 	}
 	if d := c14DiffHeader(wantTrl, c14DropNil(cr1.trailer)); d != "" {
-		w.Failf("C14/response/trailers", "response trailers differ (mode %d): %s; %s", x.ResTrl, d, ctxt())
+		fail("C14/response/trailers", "response trailers differ (mode %d): %s; %s", x.ResTrl, d, ctxt())
 	}
 	if x.Info {
-		if len(infos) != 1 || infos[0].code != 103 || strings.Join(infos[0].h["Link"], "|") != link {
-			w.Failf("C14/response/informational", "client saw 1xx responses %v, handler sent one 103 with a Link field", infos)
+		if len(cr1.infos) != 1 || cr1.infos[0].code != 103 || strings.Join(cr1.infos[0].h["Link"], "|") != c14Link {
+			fail("C14/response/informational", "client saw 1xx responses %v, handler sent one 103 with a Link field", cr1.infos)
 		}
-	} else if len(infos) != 0 {
-		w.Failf("C14/response/informational", "client saw unexpected 1xx responses %v", infos)
+	} else if len(cr1.infos) != 0 {
+		fail("C14/response/informational", "client saw unexpected 1xx responses %v", cr1.infos)
 	}
-	completed = true
-	return
 }
 
 type c14LockedWriter struct {
